@@ -285,11 +285,8 @@ func (v *Verifier) VerifyFunc(key string, c *Contract, class map[string]string) 
 		}
 	})
 	if len(retPCs) > 0 {
-		var ds []Term
-		for _, pc := range retPCs {
-			ds = append(ds, And(pc...))
-		}
-		e.obs = append(e.obs, &Obligation{Name: e.funcName + "/cover[return]", Kind: "cover", Func: e.funcName, Goal: Or(ds...), Ctx: ctx, Cover: true})
+		// some return path must be feasible (alternatives are tried in turn)
+		e.obs = append(e.obs, &Obligation{Name: e.funcName + "/cover[return]", Kind: "cover", Func: e.funcName, Assume: retPCs[0], Alts: retPCs[1:], Goal: True, Ctx: ctx, Cover: true})
 	}
 	run.Obs = e.obs
 	run.Notes = e.notes
